@@ -237,18 +237,37 @@ def forms_task(arg):
         cmds = p.outcome
         fills = [c for c in cmds if 'fill_form' in c]
         filled = [os.path.basename(c[1]) for c in fills]
+        # typed values of the chosen sections, for the forms' own needs_filing()
+        vals = cat.hab_values.ValueStore()
+        for nmf in chosen:
+            for k, v in sections[nmf].items():
+                try:
+                    vals['%s.%s' % (nmf, k)] = cat.field('%s.%s' % (nmf, k)).from_string(v)
+                except Exception:
+                    pass
         want = []
         for nmf in chosen:
             f = cat.form(nmf)
             if cat.is_copy_form(type(f)) or 'wkst' in f.name() or 'need' in f.name():
                 continue       # input-only forms and worksheets are never filed
+            try:
+                if not f.needs_filing(vals):
+                    continue
+            except Exception:
+                pass
             want.append(f)
         want.sort(key=lambda f: (int(f.jurisdiction), f.sequence_no))
         want_files = [os.path.basename(f.pdf_file()) for f in want if f.pdf_file()]
         ok = filled == want_files
-        res['obl'].append((nm, 'unsat' if ok else 'sat', 0.0))
+        # every filled form goes to its own intermediate file, and the final cat lists exactly those, once each, in order
+        outs = [c[c.index('output') + 1] for c in fills]
+        cats = [c for c in cmds if 'cat' in c]
+        ok_out = len(set(outs)) == len(outs) and len(cats) == 1 and cats[0][1:cats[0].index('cat')] == outs
+        res['obl'].append((nm, 'unsat' if (ok and ok_out) else 'sat', 0.0))
         if not ok:
             res['viol'].append({'key': 'ty%d:fill-set' % year, 'what': 'solution with sections %s: filled %s, expected %s' % (chosen, filled, want_files)})
+        elif not ok_out:
+            res['viol'].append({'key': 'ty%d:fill-outputs' % year, 'what': 'solution with sections %s: intermediate outputs %s / cat %s: a form is overwritten or listed twice' % (chosen, [os.path.basename(o) for o in outs], [os.path.basename(x) for x in (cats[0][1:cats[0].index('cat')] if cats else [])])})
     return res
 
 
@@ -293,7 +312,9 @@ def run(tier):
         os.environ['HV_PRELOADED'] = '1'
         lf = retmodel.Lifter(y, 1, 2, ['1040'], ft='ref')
         itemize = tm.var('i:1040.itemize', 'B')
-        r_, inputs, m = lf.query([lf.rm.solved, tm.eq(tm.var('i:1040.number_w-2', 'I'), I(1)), itemize, lf.rm.inform.get('1040_sa', tm.TRUE)])
+        r_, inputs, m = lf.query([lf.rm.solved, tm.eq(tm.var('i:1040.number_w-2', 'I'), I(1)), itemize, lf.rm.inform.get('1040_sa', tm.TRUE), lf.rm.inform.get('8889:you', tm.TRUE), lf.rm.inform.get('8889:spouse', tm.TRUE)])
+        if r_ != 'sat':
+            r_, inputs, m = lf.query([lf.rm.solved, tm.eq(tm.var('i:1040.number_w-2', 'I'), I(1)), itemize, lf.rm.inform.get('1040_sa', tm.TRUE)])
         if r_ != 'sat':
             r_, inputs, m = lf.query([lf.rm.solved])
         if r_ != 'sat':
